@@ -239,6 +239,12 @@ func (group *AbacoGroup) fillMissingPackets() (bytesAdded, packetsAdded, framesA
 	snexpect := group.lastSN + 1
 	for _, p := range group.queue {
 		sn := p.SequenceNumber()
+		if sn <= group.lastSN {
+			// Packets still queued from an earlier call (because another group had no data yet)
+			// were already checked for gaps then. Don't count them a second time.
+			newq = append(newq, p)
+			continue
+		}
 		for snexpect < sn {
 			pfake := p.MakePretendPacket(snexpect, group.nchan)
 			newq = append(newq, pfake)
